@@ -148,7 +148,7 @@ func runC04(c *Ctx) {
 			if id == "p2.ReqId" {
 				// the list's own id is answered once, outside the per-request loops
 				okID = true
-				ast.Inspect(u.Body, func(n ast.Node) bool {
+				u.InspectAll(func(n ast.Node) bool {
 					if rs, ok := n.(*ast.RangeStmt); ok && u.C.Term(rs.X) == "p2.Reqs" && rs.Body.Pos() <= s.Pos && s.Pos < rs.Body.End() {
 						okID = false
 					}
